@@ -17,7 +17,10 @@ PLAIN = ['A', 'B', 'Cls', 'my_class', 'X1', 'Name', 'Id', 'value', '_u', 'Dog', 
 HOSTILE_STRINGS = ['', "'", "''", "it's", "a''b", '--', '-- comment', "x -- y'z", 'line1\nline2', '\n',
                    'nul\x00byte', '\x00', u'\xe5\xe4\xf6', u'中文', u'\U0001f600', 'tab\there',
                    ');', "');\nINSERT INTO X VALUES ('", '"', '"quoted"', '\\', "\\'", ' ', 'CREATE TABLE',
-                   'a' * 300, '\r\n', '%s %d', '1C']
+                   'a' * 300, '\r\n', '%s %d', '1C',
+                   # code point sequences that are not in a Unicode normal form, and other separators / controls
+                   u'e\u0301', u'\u2126', u'\u212b', u'\u1100\u1161', u'a\u030a\u0323', u'\ufb01', u'\xa0',
+                   u'x\u2028y', u'x\u2029', u'\x85', 'a\x0cb', '\x1f', '\x1a', u'\ufeffbom', '\x7f', '\x0b']
 HOSTILE_INTS = [0, 1, -1, 7, -42, 2 ** 31, -2 ** 31, 2 ** 63, 2 ** 64 + 1, -2 ** 70, 10 ** 30]
 HOSTILE_REALS = [0.0, 1.0, -1.0, 0.5, -0.125, 3.141593, 1e10, -1e15, 123456.789012, 1e-3, 2.5e-6,
                  1e20, -7.25, 1e-7, 0.9999999]
